@@ -1,10 +1,17 @@
 import Got.Drv.Common
 import Got.Model.Search
+import Got.Model.MiniGo
+import Got.Generated.AstSortx
 /-
 drv_search: script lines
   mono <n> <b> <e>      less k = k < b ; equal k = b ≤ k < b+e           (sorted inputs)
   bits <n> <lessmask> <eqmask>   less k = bit k of lessmask etc.          (arbitrary predicates, n ≤ 62)
 output: `r <result> probes <l|e><idx> ...`  or `diverge`
+
+With the argument `ast` the same lines are answered by interpreting the MiniGo translation of sortx.Search that
+tools/srcfacts regenerated from /repo for this run (Got/Generated/AstSortx.lean) instead of the hand-written model:
+this validates the interpreter's 64-bit semantics against the real code on the very cases of the correspondence
+(theorem C14_translated_source_refines_model proves that the two modes print the same line).
 -/
 namespace Got.Drv.Search
 open Got.Model.Search Got.Drv
@@ -16,6 +23,29 @@ def showProbe : Probe → String
 def render : Option (Int × List Probe) → String
   | none => "diverge"
   | some (r, log) => joinSp (["r", toString r, "probes"] ++ log.map showProbe)
+
+def renderAst : Option Got.Model.MiniGo.Res → String
+  | some (.ret r log) =>
+    joinSp (["r", toString r, "probes"] ++ log.map fun (f, k) => (if f = "f0" then "l" else "e") ++ toString k)
+  | _ => "diverge"
+
+/-- fuel: one unit per loop iteration (at most 64 for a 64-bit count) plus the nesting depth; 1000 is ample -/
+def runAst (n : Int) (less equal : Int → Bool) : String :=
+  renderAst (Got.Generated.AstSortx.search.run
+    (fun f v => if f = "f0" then less v else if f = "f1" then equal v else false) 1000 [n])
+
+def stepAst (_ : Unit) (line : String) : Unit × String :=
+  match words line with
+  | ["mono", n, b, e] =>
+    match parseInt? n, parseInt? b, parseInt? e with
+    | some n, some b, some e => ((), runAst n (fun k => decide (k < b)) (fun k => decide (b ≤ k ∧ k < b + e)))
+    | _, _, _ => ((), "bad-op")
+  | ["bits", n, lm, em] =>
+    match parseInt? n, parseNat? lm, parseNat? em with
+    | some n, some lm, some em => ((), runAst n (fun k => lm.testBit k.toNat) (fun k => em.testBit k.toNat))
+    | _, _, _ => ((), "bad-op")
+  | [] => ((), "")
+  | _ => ((), "bad-op")
 
 def step (_ : Unit) (line : String) : Unit × String :=
   match words line with
@@ -32,7 +62,8 @@ def step (_ : Unit) (line : String) : Unit × String :=
   | [] => ((), "")
   | _ => ((), "bad-op")
 
-def main (_args : List String) : IO Unit := do
-  lineLoop (← IO.getStdin) (← IO.getStdout) step ()
+def main (args : List String) : IO Unit := do
+  if args = ["ast"] then lineLoop (← IO.getStdin) (← IO.getStdout) stepAst ()
+  else lineLoop (← IO.getStdin) (← IO.getStdout) step ()
 
 end Got.Drv.Search
